@@ -3,6 +3,7 @@ grammar (spec/es5_reference.py, written separately from the specification text),
 terminators: every sentence generated from the extracted grammar, their single-token mutations, and all short
 token strings over a representative alphabet."""
 import importlib
+import re
 import itertools
 import random
 
@@ -53,8 +54,11 @@ def _init(src_root):
 def _work(chunk):
     out = []
     es5, ref = _M['es5'], _M['ref']
+    known = ref.TOKEN_TYPES
     for kind, toks in chunk:
-        want = ref.accepts(toks)
+        # a token type the ES5 grammar does not have (a word the implementation treats as a keyword): for ES5 it is an identifier
+        rtoks = [(ty, tx) if (ty in known or ty in ('GETPROP', 'SETPROP')) else ('ID' if re.fullmatch(r'[A-Za-z_$][A-Za-z0-9_$]*', tx) else ty, tx) for ty, tx in toks]
+        want = ref.accepts(rtoks)
         got = parser_accepts(es5, toks)
         if want != got:
             out.append((kind, toks, want, got))
